@@ -997,3 +997,714 @@ Proof.
   pose proof (boundaries_bound tg m (total + Z.shiftr p 1) Etg ltac:(lia) Hd'). lia.
 Qed.
 End Count.
+
+(* ================================================================================================ *)
+(* termination: the fuel of the model functions always suffices *)
+
+(* sum of f over the timer records 1..n *)
+Fixpoint sumN (f : Z -> Z) (n : nat) : Z :=
+  match n with O => 0 | S k => sumN f k + f (Z.of_nat (S k)) end.
+
+Lemma sumN_ext f g n : (forall t, 1 <= t <= Z.of_nat n -> f t = g t) -> sumN f n = sumN g n.
+Proof.
+  induction n as [|n IH]; intros H; cbn [sumN]; auto.
+  rewrite IH by (intros; apply H; lia). rewrite H by lia. reflexivity.
+Qed.
+Lemma sumN_le f g n : (forall t, 1 <= t <= Z.of_nat n -> f t <= g t) -> sumN f n <= sumN g n.
+Proof.
+  induction n as [|n IH]; intros H; cbn [sumN]; [lia|].
+  pose proof (IH ltac:(intros; apply H; lia)). pose proof (H (Z.of_nat (S n)) ltac:(lia)). lia.
+Qed.
+Lemma sumN_nonneg f n : (forall t, 1 <= t <= Z.of_nat n -> 0 <= f t) -> 0 <= sumN f n.
+Proof.
+  induction n as [|n IH]; intros H; cbn [sumN]; [lia|].
+  pose proof (IH ltac:(intros; apply H; lia)). pose proof (H (Z.of_nat (S n)) ltac:(lia)). lia.
+Qed.
+(* f and g agree except at d *)
+Lemma sumN_change f g n d : 1 <= d <= Z.of_nat n -> (forall t, t <> d -> f t = g t) ->
+  sumN g n = sumN f n - f d + g d.
+Proof.
+  induction n as [|n IH]; intros Hd H; [lia|]. cbn [sumN].
+  destruct (Z.eq_dec d (Z.of_nat (S n))) as [E|E].
+  - rewrite <- E. rewrite (sumN_ext g f n) by (intros; symmetry; apply H; lia). lia.
+  - rewrite IH by (auto; lia). rewrite (H (Z.of_nat (S n))) by auto. lia.
+Qed.
+Lemma sumN_scale f n c : (forall t, 1 <= t <= Z.of_nat n -> f t <= c) -> sumN f n <= c * Z.of_nat n.
+Proof.
+  induction n as [|n IH]; intros H; cbn [sumN]; [lia|].
+  pose proof (IH ltac:(intros; apply H; lia)). pose proof (H (Z.of_nat (S n)) ltac:(lia)). lia.
+Qed.
+
+(* number of records 1..n satisfying b, as the length of the filtered list *)
+Definition ids (n : nat) : list Z := map Z.of_nat (seq 1 n).
+Lemma ids_In n t : In t (ids n) <-> 1 <= t <= Z.of_nat n.
+Proof.
+  unfold ids. rewrite in_map_iff. split.
+  - intros [k [<- Hk]]. apply in_seq in Hk. lia.
+  - intros H. exists (Z.to_nat t). split; [lia|]. apply in_seq. lia.
+Qed.
+Lemma ids_NoDup n : NoDup (ids n).
+Proof. unfold ids. apply NoDup_map_inj; [apply seq_NoDup|]. intros; lia. Qed.
+Lemma ids_S n : ids (S n) = ids n ++ [Z.of_nat (S n)].
+Proof. unfold ids. rewrite seq_S, map_app. reflexivity. Qed.
+Lemma sumN_count (b : Z -> bool) n :
+  sumN (fun t => if b t then 1 else 0) n = Z.of_nat (length (filter b (ids n))).
+Proof.
+  induction n as [|n IH]; [reflexivity|]. cbn [sumN]. rewrite IH, ids_S, filter_app, app_length. cbn [filter].
+  destruct (b (Z.of_nat (S n))); cbn [length]; lia.
+Qed.
+
+Section CountMembers.
+Local Ltac Zify.zify_post_hook ::= Z.div_mod_to_equations.
+(* the stored timers among the records 1..n are at most count/2 *)
+Lemma members_le_count key S h (b : Z -> bool) n :
+  Inv key S h -> (forall t, b t = true -> S t) ->
+  2 * sumN (fun t => if b t then 1 else 0) n <= h_count h.
+Proof.
+  intros I Hb. rewrite sumN_count.
+  destruct (iv_cnt _ _ _ I) as [[C0 _] Cev].
+  set (l := filter b (ids n)).
+  assert (ND : NoDup (map (h_ent h 0) l)).
+  { apply NoDup_map_inj; [apply NoDup_filter; apply ids_NoDup|].
+    intros x y Hx Hy E. apply filter_In in Hx. apply filter_In in Hy.
+    destruct (hi_bwd _ _ _ _ (iv_h0 _ _ _ I) x (Hb _ (proj2 Hx))) as [_ [_ Ex]].
+    destruct (hi_bwd _ _ _ _ (iv_h0 _ _ _ I) y (Hb _ (proj2 Hy))) as [_ [_ Ey]].
+    rewrite E in Ex. congruence. }
+  set (m := h_count h / 2).
+  assert (INC : incl (map (h_ent h 0) l) (map (fun k => 2 * k) (zrange m))).
+  { intros e He. apply in_map_iff in He. destruct He as [t [<- Ht]]. apply filter_In in Ht.
+    destruct (hi_bwd _ _ _ _ (iv_h0 _ _ _ I) t (Hb _ (proj2 Ht))) as [R [P _]].
+    apply in_map_iff. exists (h_ent h 0 t / 2). split; [lia|]. apply zrange_In. unfold m. lia. }
+  pose proof (NoDup_incl_length ND INC) as L. rewrite !map_length in L.
+  assert (0 <= m) by (unfold m; lia).
+  pose proof (zrange_length m ltac:(lia)). unfold m in *. lia.
+Qed.
+End CountMembers.
+
+(* ---- value ranges kept by every operation *)
+Definition vok (x : timer) : Prop :=
+  1 <= t_target x < T64 /\ 1 <= t_interval x < T64 /\ 0 <= t_pending x < T64 /\
+  match t_cfg x with Some (_, tg, _, itv) => 1 <= tg < T64 /\ 1 <= itv < T64 | None => True end.
+Definition VInv (st : state) : Prop := forall t, vok (tm st t).
+
+Lemma vok_same_vals x y : same_vals x y -> vok y -> vok x.
+Proof. unfold same_vals, vok. intros (_ & _ & -> & _ & -> & -> & -> & _). auto. Qed.
+
+Lemma compute_missed_dl tg dl dl2 itv now prev :
+  fst (fst (compute_missed tg dl itv now prev)) = fst (fst (compute_missed tg dl2 itv now prev)) /\
+  snd (fst (compute_missed tg dl itv now prev)) = snd (fst (compute_missed tg dl2 itv now prev)).
+Proof. unfold compute_missed. destruct (_ >? _); destruct (_ <? _); cbn [fst snd]; auto. Qed.
+
+Section MissedRanges.
+(* fired by the run (prev = 0): the target is pushed strictly beyond now, or the timer becomes a spent one-shot *)
+Lemma missed_push tg dl itv now :
+  1 <= tg <= now -> now < T63 -> 1 <= itv < T64 ->
+  let '(cnt, tg', dl') := compute_missed tg dl itv now 0 in
+  0 <= cnt < T63 /\ (itv < INT64_MAX -> now < tg' < T64) /\ (INT64_MAX <= itv -> tg' = UINT64_MAX).
+Proof.
+  intros Ht Hn Hi.
+  destruct (compute_missed_dl tg dl 0 itv now 0) as [E1 E2].
+  assert (Q : (now - tg) / itv <= now - tg) by (apply Z.div_le_upper_bound; unfold T63, T64 in *; nia).
+  pose proof (missed_count tg 0 itv now 0 Ht Hn Hi ltac:(unfold T64; lia) ltac:(lia)
+                ltac:(unfold LONG_MAX, T63 in *; lia)) as MC.
+  destruct (compute_missed tg dl itv now 0) as [[cnt tg'] dl'].
+  destruct (compute_missed tg 0 itv now 0) as [[cnt0 tg0] dl0]. cbn [fst snd] in *. subst cnt0 tg0.
+  cbv zeta in MC. destruct MC as [Er [_ [B C]]].
+  assert (0 <= (now - tg) / itv) by (apply Z.div_pos; unfold T64 in *; lia).
+  split; [unfold T63 in *; lia|]. split.
+  - intros L. destruct (B L) as [_ [X [_ [Y _]]]]. lia.
+  - intros L. destruct (C L) as [_ [X _]]. exact X.
+Qed.
+
+(* completed by the latch (any accumulated count): the target stays a valid one *)
+Lemma missed_latch_range tg dl itv now prev :
+  1 <= tg <= now -> now < T63 -> 1 <= itv < T64 -> 0 <= prev < T63 ->
+  let '(cnt, tg', dl') := compute_missed tg dl itv now prev in
+  1 <= tg' < T64.
+Proof.
+  intros Ht Hn Hi Hp. unfold compute_missed, LONG_MAX, INT64_MAX, UINT64_MAX, T63, T64 in *.
+  destruct (div_bounds (now - tg) itv ltac:(lia) ltac:(lia)) as [Q0 [Q1 Q2]].
+  rewrite (u64_id (now - tg)) by lia.
+  set (q := (now - tg) / itv) in *.
+  assert (Qb : q <= now - tg) by (apply Z.div_le_upper_bound; nia).
+  rewrite (u64_id (q + 1)) by lia. rewrite (u64_id (q + 1 + prev)) by lia.
+  set (m := if q + 1 + prev >? 9223372036854775807 then u64 (9223372036854775807 - prev) else q + 1).
+  assert (Hm : 0 <= m <= q + 1).
+  { unfold m. destruct (Z.gtb_spec (q + 1 + prev) 9223372036854775807); [rewrite u64_id by lia|]; lia. }
+  clearbody m.
+  destruct (Z.ltb_spec itv 9223372036854775807) as [L|L]; cbv zeta; [|lia].
+  assert (0 <= m * itv <= (q + 1) * itv) by nia.
+  assert ((q + 1) * itv = itv * q + itv) by ring.
+  rewrite (u64_id (m * itv)) by lia. rewrite (u64_id (tg + m * itv)) by lia. lia.
+Qed.
+End MissedRanges.
+
+Lemma lor1_range p : 0 <= p < T64 -> 0 <= Z.lor p 1 < T64.
+Proof.
+  unfold T64. intros H. rewrite lor1 by lia.
+  assert (R : p mod 2 = 0 \/ p mod 2 = 1) by (pose proof (Z.mod_pos_bound p 2); lia).
+  assert (p = 2 * (p / 2) + p mod 2) by (apply Z.div_mod; lia). lia.
+Qed.
+
+Section Term.
+Variable N : Z.
+Hypothesis HN : 0 <= N /\ 2 * N + 2 <= CAPMAX.
+Notation GInv := (GInv N).
+
+Lemma VInv_set st t v : VInv st -> vok v -> VInv (set_timer st t v).
+Proof.
+  intros V Hv u. destruct (Z.eq_dec u t) as [->|Nu]; [rewrite tm_set_timer_eq; auto|rewrite tm_set_timer_neq; auto].
+Qed.
+Lemma VInv_same st st' : (forall u, same_vals (tm st' u) (tm st u)) -> VInv st -> VInv st'.
+Proof. intros H V u. eapply vok_same_vals; eauto. Qed.
+Lemma VInv_disarm st t : VInv st -> VInv (disarm st t).
+Proof. apply VInv_same. intros u. apply disarm_vals. Qed.
+Lemma VInv_arm st t i : VInv st -> VInv (arm st t i).
+Proof. apply VInv_same. intros u. apply arm_vals. Qed.
+Lemma VInv_resume st t : VInv st -> VInv (resume st t).
+Proof. apply VInv_same. intros u. apply resume_vals. Qed.
+
+Lemma configure_other st t u : u <> t -> tm (configure st t) u = tm st u.
+Proof.
+  intros Nu. unfold configure. destruct (t_cfg (tm st t)) as [[[[c tg] dl] itv]|]; auto.
+  destruct (t_armed _); [rewrite resume_other by auto|]; apply tm_set_timer_neq; auto.
+Qed.
+
+Lemma VInv_configure st t : VInv st -> VInv (configure st t).
+Proof.
+  intros V. unfold configure. pose proof (V t) as Vt. unfold vok in Vt.
+  destruct (t_cfg (tm st t)) as [[[[c tg] dl] itv]|]; auto.
+  set (x1 := with_pending _ 0).
+  assert (Hx : vok x1).
+  { unfold x1, vok. destruct (negb (c =? t_clock (tm st t))); simpl; unfold T64 in *; intuition lia. }
+  destruct (t_armed x1); [apply VInv_resume|]; apply VInv_set; auto.
+Qed.
+
+(* ---- the measures *)
+Definition wgt (cur now : Z) (st : state) (t : Z) : Z :=
+  let x := tm st t in
+  if t_armed x && (t_ident x =? cur) then
+    (match t_cfg x with Some _ => 1 | None => 0 end) + (if t_target x <=? now then 1 else 0)
+  else 0.
+Definition Phi (cur now : Z) (st : state) : Z := sumN (wgt cur now st) (Z.to_nat N).
+Definition psi (st : state) (t : Z) : Z := match t_cfg (tm st t) with Some _ => 1 | None => 0 end.
+Definition Psi (st : state) : Z := sumN (psi st) (Z.to_nat N).
+
+Lemma wgt_range cur now st t : 0 <= wgt cur now st t <= 2.
+Proof. unfold wgt. destruct (_ && _); [destruct (t_cfg _); destruct (_ <=? _)|]; lia. Qed.
+Lemma psi_range st t : 0 <= psi st t <= 1.
+Proof. unfold psi. destruct (t_cfg _); lia. Qed.
+Lemma Phi_nonneg cur now st : 0 <= Phi cur now st.
+Proof. apply sumN_nonneg. intros. apply wgt_range. Qed.
+Lemma Psi_range st : 0 <= Psi st <= N.
+Proof.
+  split; [apply sumN_nonneg; intros; apply psi_range|].
+  pose proof (sumN_scale (psi st) (Z.to_nat N) 1 ltac:(intros; apply psi_range)). unfold Psi. lia.
+Qed.
+
+Lemma sumN_double f n : sumN (fun t => 2 * f t) n = 2 * sumN f n.
+Proof. induction n as [|n IH]; cbn [sumN]; lia. Qed.
+
+Lemma Phi_le_count cur now st : GInv st -> Phi cur now st <= h_count (s_heaps st cur).
+Proof.
+  intros G. set (b := fun t => t_armed (tm st t) && (t_ident (tm st t) =? cur)).
+  assert (Hb : forall t, b t = true -> member st cur t).
+  { intros t E. unfold b in E. apply andb_true_iff in E. destruct E as [A I]. apply Z.eqb_eq in I.
+    pose proof (gi_ids _ _ G t A). unfold member. repeat split; auto. lia. }
+  pose proof (members_le_count _ _ _ b (Z.to_nat N) (gi_heaps _ _ G cur) Hb) as L.
+  assert (Phi cur now st <= sumN (fun t => 2 * (if b t then 1 else 0)) (Z.to_nat N)).
+  { apply sumN_le. intros t _. unfold wgt. fold (b t). pose proof (wgt_range cur now st t) as R. unfold wgt in R. fold (b t) in R.
+    destruct (b t); lia. }
+  rewrite sumN_double in H. lia.
+Qed.
+
+Lemma vok_pending x p : vok x -> 0 <= p < T64 -> vok (with_pending x p).
+Proof. unfold vok. simpl. tauto. Qed.
+
+Lemma wgt_notarmed cur now st t : t_armed (tm st t) = false -> wgt cur now st t = 0.
+Proof. intros A. unfold wgt. rewrite A. reflexivity. Qed.
+
+(* one iteration of the run loop: what it does to the measures *)
+Lemma run_step_T st cur now :
+  GInv st -> VInv st -> h_slot (s_heaps st cur) 0 <> 0 ->
+  t_target (tm st (h_slot (s_heaps st cur) 0)) <= now -> 0 <= now < T63 ->
+  let dr := h_slot (s_heaps st cur) 0 in
+  let st' := fst (run_step st cur now dr) in
+  (forall u, u <> dr -> tm st' u = tm st u) /\ VInv st' /\
+  wgt cur now st' dr < wgt cur now st dr /\
+  psi st' dr <= psi st dr /\
+  (t_after (tm st dr) = false -> t_cfg (tm st dr) <> None -> psi st' dr < psi st dr) /\
+  (t_cfg (tm st dr) = None -> t_armed (tm st' dr) = true ->
+     t_ident (tm st' dr) = cur /\ now < t_target (tm st' dr)).
+Proof.
+  intros G V Nm Le Hn. cbv zeta. set (dr := h_slot (s_heaps st cur) 0) in *.
+  destruct (min_member N st cur G Nm) as [Nz [A Id]]. fold dr in Nz, A, Id.
+  pose proof (V dr) as Vd. destruct Vd as (Vt & Vi & Vp & Vc).
+  assert (W0 : wgt cur now st dr = psi st dr + 1).
+  { unfold wgt, psi. rewrite A, Id, Z.eqb_refl. cbn [andb]. destruct (Z.leb_spec (t_target (tm st dr)) now); [reflexivity|lia]. }
+  pose proof (psi_range st dr) as Pr.
+  (* the two shapes of "leaves the heap with pending data p" *)
+  assert (Leave : forall st1 p, (forall u, u <> dr -> tm st1 u = tm st u) ->
+            vok (tm st1 dr) -> t_cfg (tm st1 dr) = t_cfg (tm st dr) -> 0 <= p < T64 ->
+            let st' := set_timer (disarm st1 dr) dr (with_pending (tm (disarm st1 dr) dr) p) in
+            (forall u, u <> dr -> tm st' u = tm st u) /\ (VInv st1 -> VInv st') /\
+            wgt cur now st' dr = 0 /\ psi st' dr = psi st dr /\ t_armed (tm st' dr) = false).
+  { intros st1 p Ho V1 C1 Hp. cbv zeta.
+    assert (T' : tm (set_timer (disarm st1 dr) dr (with_pending (tm (disarm st1 dr) dr) p)) dr
+                 = with_pending (with_armed (tm st1 dr) false) p).
+    { rewrite tm_set_timer_eq, disarm_tm, Z.eqb_refl. reflexivity. }
+    split; [intros u Nu; rewrite tm_set_timer_neq, disarm_other by auto; auto|].
+    split; [intros VV; apply VInv_set; [apply VInv_disarm; auto|]; rewrite disarm_tm, Z.eqb_refl; apply vok_pending; auto;
+            unfold vok in *; simpl; auto|].
+    split; [apply wgt_notarmed; rewrite T'; reflexivity|].
+    split; [unfold psi; rewrite T'; simpl; rewrite C1; reflexivity|rewrite T'; reflexivity]. }
+  unfold run_step. fold dr. destruct (t_after (tm st dr)) eqn:Af.
+  - (* dispatch_after *)
+    cbn [fst]. destruct (Leave st 2 ltac:(auto) (V dr) eq_refl ltac:(unfold T64; lia))
+      as (Ho & Vv & Wz & Ps & Ar).
+    split; [exact Ho|]. split; [apply Vv; auto|]. split; [lia|]. split; [lia|].
+    split; [intros ? X; try congruence; try lia|intros ? X; congruence].
+  - destruct (t_cfg (tm st dr)) as [[[[c tg] dl] itv]|] eqn:Cf.
+    + (* configure *)
+      cbn [fst]. destruct (configure_replaces st dr c tg dl itv Cf) as (_ & _ & _ & _ & _ & Cn & _).
+      split; [intros u Nu; apply configure_other; auto|]. split; [apply VInv_configure; auto|].
+      assert (P' : psi (configure st dr) dr = 0) by (unfold psi; rewrite Cn; reflexivity).
+      assert (Ps : psi st dr = 1) by (unfold psi; rewrite Cf; reflexivity).
+      split; [|split; [lia|split; [intros; lia|intros X; discriminate]]].
+      rewrite W0, Ps. unfold wgt. rewrite Cn. destruct (_ && _); [destruct (_ <=? _)|]; lia.
+    + assert (Ps : psi st dr = 0) by (unfold psi; rewrite Cf; reflexivity).
+      destruct (nz (t_pending (tm st dr))).
+      * cbn [fst]. destruct (Leave st (Z.lor (t_pending (tm st dr)) DISPATCH_TIMER_DISARMED_MARKER)
+                               ltac:(auto) (V dr) Cf
+                               ltac:(apply lor1_range; auto)) as (Ho & Vv & Wz & Ps' & Ar).
+        split; [exact Ho|]. split; [apply Vv; auto|]. split; [lia|]. split; [lia|].
+    split; [intros ? X; try congruence; try lia|intros ? X; congruence].
+      * pose proof (missed_push (t_target (tm st dr)) (t_deadline (tm st dr)) (t_interval (tm st dr)) now
+                      ltac:(lia) ltac:(lia) Vi) as MP.
+        destruct (compute_missed _ _ _ _ _) as [[cnt tg] dl]. destruct MP as (Hc & Hlt & Hge).
+        set (x1 := with_values (tm st dr) tg dl (t_interval (tm st dr))).
+        set (st1 := set_timer st dr x1).
+        assert (T1 : tm st1 dr = x1) by apply tm_set_timer_eq.
+        assert (O1 : forall u, u <> dr -> tm st1 u = tm st u) by (intros; apply tm_set_timer_neq; auto).
+        assert (Tg1 : 1 <= tg < T64).
+        { destruct (Z.lt_ge_cases (t_interval (tm st dr)) INT64_MAX) as [L|L];
+            [specialize (Hlt L)|rewrite (Hge L)]; unfold UINT64_MAX, T64, T63 in *; lia. }
+        assert (Vx1 : vok x1) by (unfold vok, x1; simpl; rewrite Cf; auto).
+        assert (V1 : VInv st1) by (apply VInv_set; auto).
+        assert (Pp : 0 <= u64 (Z.shiftl cnt 1) < T64) by apply u64_range.
+        rewrite T1. destruct (needs_rearm x1) eqn:W; cbn [fst].
+        -- (* re-armed: the new target is beyond now *)
+           pose proof (needs_rearm_tgt _ W) as Tl. unfold x1 in Tl. simpl in Tl.
+           assert (Li : t_interval (tm st dr) < INT64_MAX).
+           { destruct (Z.lt_ge_cases (t_interval (tm st dr)) INT64_MAX) as [L|L]; auto.
+             rewrite (Hge L) in Tl. unfold UINT64_MAX, INT64_MAX in Tl. lia. }
+           specialize (Hlt Li).
+           set (st2 := arm st1 dr cur).
+           assert (T2 : tm st2 dr = x1).
+           { unfold st2. rewrite arm_tm, T1. unfold x1 at 1. simpl. rewrite A. reflexivity. }
+           assert (T' : tm (set_timer st2 dr (with_pending (tm st2 dr) (u64 (Z.shiftl cnt 1)))) dr
+                        = with_pending x1 (u64 (Z.shiftl cnt 1))) by (rewrite tm_set_timer_eq, T2; reflexivity).
+           split; [intros u Nu; rewrite tm_set_timer_neq by auto; unfold st2; rewrite arm_other by auto; auto|].
+           split; [apply VInv_set; [apply VInv_arm; auto|rewrite T2; apply vok_pending; auto]|].
+           split; [|split; [|split; [intros _ X; congruence|]]].
+           ++ rewrite W0, Ps. unfold wgt. rewrite T'. unfold x1. simpl. rewrite A, Id, Z.eqb_refl, Cf. cbn [andb].
+              destruct (Z.leb_spec tg now); lia.
+           ++ unfold psi at 1. rewrite T'. unfold x1. simpl. rewrite Cf. lia.
+           ++ intros _ _. rewrite T'. unfold x1. simpl. split; [exact Id|lia].
+        -- destruct (Leave st1 (Z.lor (u64 (Z.shiftl cnt 1)) DISPATCH_TIMER_DISARMED_MARKER)
+                       O1 ltac:(rewrite T1; auto)
+                       ltac:(rewrite T1; unfold x1; simpl; exact Cf) ltac:(apply lor1_range; auto)) as (Ho & Vv & Wz & Ps' & Ar).
+           split; [exact Ho|]. split; [apply Vv; auto|]. split; [lia|]. split; [lia|].
+    split; [intros ? X; try congruence; try lia|intros ? X; congruence].
+Qed.
+
+Lemma Phi_step cur now st st' dr :
+  1 <= dr <= N -> (forall u, u <> dr -> tm st' u = tm st u) ->
+  Phi cur now st' = Phi cur now st - wgt cur now st dr + wgt cur now st' dr.
+Proof.
+  intros Hd Ho. unfold Phi. apply sumN_change; [lia|].
+  intros t Nt. unfold wgt. rewrite Ho by auto. reflexivity.
+Qed.
+Lemma Psi_step st st' dr :
+  1 <= dr <= N -> (forall u, u <> dr -> tm st' u = tm st u) ->
+  Psi st' = Psi st - psi st dr + psi st' dr.
+Proof.
+  intros Hd Ho. unfold Psi. apply sumN_change; [lia|].
+  intros t Nt. unfold psi. rewrite Ho by auto. reflexivity.
+Qed.
+
+(* _dispatch_timers_run always leaves its loop: the fuel of the model (two iterations per stored timer) suffices.
+   The clock reading is the cached one: constant during the call, below 2^63. *)
+Lemma run_loop_term cur now : 0 <= now < T63 ->
+  forall fuel st ev, GInv st -> VInv st -> Phi cur now st < Z.of_nat fuel ->
+  exists st' ev', run_loop fuel st cur now ev = (st', ev', true) /\ VInv st'.
+Proof.
+  intros Hn. induction fuel as [|fuel IH]; intros st ev G V Hf.
+  - pose proof (Phi_nonneg cur now st). lia.
+  - cbn [run_loop]. unfold DTH_TARGET_ID.
+    destruct (Z.eqb_spec (h_slot (s_heaps st cur) 0) 0) as [Z0|Nm]; [eauto|].
+    destruct (Z.gtb_spec (t_target (tm st (h_slot (s_heaps st cur) 0))) now) as [Gt|Le]; [eauto|].
+    destruct (run_step_T st cur now G V Nm Le Hn) as (Ho & V1 & Wd & _).
+    pose proof (run_step_G N HN st cur now G Nm) as G1.
+    destruct (min_member N st cur G Nm) as [_ [A _]].
+    pose proof (Phi_step cur now st _ _ (gi_ids _ _ G _ A) Ho) as Ps.
+    destruct (run_step st cur now (h_slot (s_heaps st cur) 0)) as [st1 e1]. cbn [fst] in *.
+    apply IH; auto. lia.
+Qed.
+
+Theorem timers_run_terminates st cur now :
+  GInv st -> VInv st -> 0 <= now < T63 ->
+  exists st' ev, timers_run st cur now = (st', ev, true) /\ VInv st'.
+Proof.
+  intros G V Hn. unfold timers_run. apply run_loop_term; auto.
+  pose proof (Phi_le_count cur now st G).
+  assert (0 <= h_count (s_heaps st cur)) by (destruct (iv_cnt _ _ _ (gi_heaps _ _ G cur)); lia).
+  rewrite Nat2Z.inj_add, Z2Nat.id by lia. simpl. lia.
+Qed.
+
+(* ---- the manager's pass: a pass can leave the dirty bits set only if a pending configuration was consumed *)
+Variable nows : Z -> Z.
+Hypothesis Hnows : forall i, 0 <= i < 3 -> 0 <= nows i < T63.
+
+Definition Rok (P0 : Z) (st : state) (j : Z) : Prop := Fix nows st j \/ Psi st < P0.
+
+Lemma run_loop_R cur P0 (ran : Z -> bool) : 0 <= cur < 3 ->
+  forall fuel st ev st' ev',
+  GInv st -> VInv st -> Psi st <= P0 -> (forall j, ran j = true -> Rok P0 st j) ->
+  run_loop fuel st cur (nows cur) ev = (st', ev', true) ->
+  GInv st' /\ VInv st' /\ Psi st' <= P0 /\ (forall j, mark ran cur j = true -> Rok P0 st' j).
+Proof.
+  intros Hc. induction fuel as [|fuel IH]; intros st ev st' ev' G V HP HR E; cbn [run_loop] in E; [inversion E|].
+  unfold DTH_TARGET_ID in E.
+  assert (Exit : (h_slot (s_heaps st cur) 0 = 0 \/ nows cur < t_target (tm st (h_slot (s_heaps st cur) 0))) ->
+                 forall j, mark ran cur j = true -> Rok P0 st j).
+  { intros X j Hj. unfold mark in Hj. destruct (Z.eqb_spec j cur) as [Ej|Nj]; [rewrite Ej|auto].
+    left. intros u Mu. destruct (member_nonempty N st cur u G Mu) as [Nm L]. unfold min0 in *. destruct X; [contradiction|lia]. }
+  destruct (Z.eqb_spec (h_slot (s_heaps st cur) 0) 0) as [Z0|Nm];
+    [inversion E; subst st' ev'; split; [auto|split; [auto|split; [auto|apply Exit; left; auto]]]|].
+  destruct (Z.gtb_spec (t_target (tm st (h_slot (s_heaps st cur) 0))) (nows cur)) as [Gt|Le];
+    [inversion E; subst st' ev'; split; [auto|split; [auto|split; [auto|apply Exit; right; lia]]]|].
+  set (dr := h_slot (s_heaps st cur) 0) in *.
+  destruct (run_step_T st cur (nows cur) G V Nm Le (Hnows cur Hc)) as (Ho & V1 & _ & Pd & Pc & Pe). fold dr in Ho, V1, Pd, Pc, Pe.
+  pose proof (run_step_G N HN st cur (nows cur) G Nm) as G1. fold dr in G1.
+  destruct (min_member N st cur G Nm) as [_ [A _]]. fold dr in A.
+  pose proof (Psi_step st _ dr (gi_ids _ _ G _ A) Ho) as Ps.
+  assert (Af : t_after (tm st dr) = false \/ t_after (tm st dr) = true) by (destruct (t_after (tm st dr)); auto).
+  destruct (run_step st cur (nows cur) dr) as [st1 e1] eqn:RS. cbn [fst] in *.
+  apply (IH st1 (ev ++ e1) st' ev'); auto; try lia.
+  intros j Hj. destruct (HR j Hj) as [Fx|Lt]; [|right; lia].
+  destruct (t_cfg (tm st dr)) eqn:Cf.
+  - (* a configuration was pending *)
+    destruct Af as [Af|Af].
+    + right. specialize (Pc Af ltac:(discriminate)). lia.
+    + (* dispatch_after timer: it leaves the heap *)
+      left. intros u Mu. destruct (Z.eq_dec u dr) as [->|Nu].
+      * exfalso. unfold run_step in RS. fold dr in RS. rewrite Af in RS. inversion RS; subst st1.
+        destruct Mu as [_ [X _]]. rewrite tm_set_timer_eq in X.
+        change (t_armed (tm (disarm st dr) dr) = true) in X.
+        rewrite disarm_tm, Z.eqb_refl in X. discriminate.
+      * assert (Mu' : member st j u) by (unfold member in *; rewrite Ho in Mu by auto; exact Mu).
+        rewrite Ho by auto. apply Fx; auto.
+  - left. intros u Mu. destruct (Z.eq_dec u dr) as [->|Nu].
+    + destruct Mu as [_ [Au Iu]]. destruct (Pe eq_refl Au) as [Ic Tg]. rewrite <- Iu, Ic. exact Tg.
+    + assert (Mu' : member st j u) by (unfold member in *; rewrite Ho in Mu by auto; exact Mu).
+      rewrite Ho by auto. apply Fx; auto.
+Qed.
+
+Lemma Fix_same st st' j : s_timers st' = s_timers st -> Fix nows st j -> Fix nows st' j.
+Proof.
+  intros E Fx u Mu. assert (Tm : forall v, tm st' v = tm st v) by (intros; unfold tm; rewrite E; reflexivity).
+  rewrite Tm. apply Fx. unfold member in *. rewrite Tm in Mu. exact Mu.
+Qed.
+Lemma Psi_same st st' : s_timers st' = s_timers st -> Psi st' = Psi st.
+Proof. intros E. unfold Psi. apply sumN_ext. intros t _. unfold psi, tm. rewrite E. reflexivity. Qed.
+Lemma VInv_same_timers st st' : s_timers st' = s_timers st -> VInv st -> VInv st'.
+Proof. intros E V t. unfold tm. rewrite E. apply V. Qed.
+
+(* programming sets the dirty bits only for a heap whose minimum is due *)
+Lemma program_dirty_cause st i now :
+  VInv st -> 0 <= now < T63 ->
+  s_dirty (fst (program_if_needed st i now)) = true ->
+  s_dirty st = true \/ (min0 st i <> 0 /\ t_target (tm st (min0 st i)) <= now).
+Proof.
+  intros V Hn. unfold program_if_needed. destruct (h_np (s_heaps st i)); [|auto].
+  unfold program, get_delay, DTH_TARGET_ID, DTH_DEADLINE_ID. fold (min0 st i).
+  destruct (Z.eqb_spec (min0 st i) 0) as [Z0|Nm].
+  - unfold INT64_MAX. cbn. auto.
+  - destruct (Z.leb_spec (t_target (tm st (min0 st i))) now) as [L|L]; [auto|].
+    destruct (V (min0 st i)) as (Vt & _). unfold T63, T64, INT64_MAX in *.
+    rewrite (u64_id (t_target (tm st (min0 st i)) - now)) by lia.
+    set (d := Z.min (t_target (tm st (min0 st i)) - now) 9223372036854775807).
+    assert (d <> 0) by (unfold d; lia).
+    destruct (Z.eqb_spec d 0); [contradiction|]. cbn [orb].
+    destruct (d >=? 9223372036854775807); cbn [fst]; simpl; auto.
+Qed.
+
+Theorem drain_pass_term st :
+  GInv st -> VInv st ->
+  exists st' ev calls, drain_pass st nows = (st', ev, calls, true) /\
+    GInv st' /\ VInv st' /\ Psi st' <= Psi st /\ (s_dirty st' = true -> Psi st' < Psi st).
+Proof.
+  intros G V. unfold drain_pass, run_all, program_all.
+  destruct (timers_run_terminates st 0 (nows 0) G V (Hnows 0 ltac:(lia))) as (s0 & e0 & R0 & V0).
+  rewrite R0. unfold timers_run in R0.
+  destruct (run_loop_R 0 (Psi st) none ltac:(lia) _ _ _ _ _ G V ltac:(lia) ltac:(intros j X; discriminate) R0) as (G0 & _ & P0 & K0).
+  destruct (timers_run_terminates s0 1 (nows 1) G0 V0 (Hnows 1 ltac:(lia))) as (s1 & e1 & R1 & V1).
+  rewrite R1. unfold timers_run in R1.
+  destruct (run_loop_R 1 (Psi st) _ ltac:(lia) _ _ _ _ _ G0 V0 P0 K0 R1) as (G1 & _ & P1 & K1).
+  destruct (timers_run_terminates s1 2 (nows 2) G1 V1 (Hnows 2 ltac:(lia))) as (s2 & e2 & R2 & V2).
+  rewrite R2. unfold timers_run in R2.
+  destruct (run_loop_R 2 (Psi st) _ ltac:(lia) _ _ _ _ _ G1 V1 P1 K1 R2) as (G2 & _ & P2 & K2).
+  cbn [andb].
+  assert (K : forall j, 0 <= j < 3 -> Rok (Psi st) s2 j).
+  { intros j Hj. apply K2. unfold mark, none. destruct (Z.eqb_spec j 2); auto. destruct (Z.eqb_spec j 1); auto.
+    destruct (Z.eqb_spec j 0); auto. lia. }
+  set (d0 := set_dirty s2 false).
+  assert (Gd : GInv d0) by (apply (set_dirty_G N); auto).
+  assert (Td : s_timers d0 = s_timers s2) by reflexivity.
+  destruct (program_if_needed_facts N HN nows d0 0 Gd (Hnows 0 ltac:(lia))) as (T0 & M0 & _ & D0 & _).
+  pose proof (program_if_needed_G N d0 0 (nows 0) Gd) as Gp0.
+  pose proof (program_dirty_cause d0 0 (nows 0) (VInv_same_timers _ _ Td V2) (Hnows 0 ltac:(lia))) as C0.
+  destruct (program_if_needed d0 0 (nows 0)) as [p0 c0]. cbn [fst] in *.
+  destruct (program_if_needed_facts N HN nows p0 1 Gp0 (Hnows 1 ltac:(lia))) as (T1 & M1 & _ & D1 & _).
+  pose proof (program_if_needed_G N p0 1 (nows 1) Gp0) as Gp1.
+  assert (Tp0 : s_timers p0 = s_timers s2) by congruence.
+  pose proof (program_dirty_cause p0 1 (nows 1) (VInv_same_timers _ _ Tp0 V2) (Hnows 1 ltac:(lia))) as C1.
+  destruct (program_if_needed p0 1 (nows 1)) as [p1 c1]. cbn [fst] in *.
+  destruct (program_if_needed_facts N HN nows p1 2 Gp1 (Hnows 2 ltac:(lia))) as (T2 & M2 & _ & D2 & _).
+  pose proof (program_if_needed_G N p1 2 (nows 2) Gp1) as Gp2.
+  assert (Tp1 : s_timers p1 = s_timers s2) by congruence.
+  pose proof (program_dirty_cause p1 2 (nows 2) (VInv_same_timers _ _ Tp1 V2) (Hnows 2 ltac:(lia))) as C2.
+  destruct (program_if_needed p1 2 (nows 2)) as [p2 c2]. cbn [fst] in *.
+  assert (Tp2 : s_timers p2 = s_timers s2) by congruence.
+  exists p2, (e0 ++ e1 ++ e2), (c0 ++ c1 ++ c2). split; [reflexivity|].
+  split; [exact Gp2|]. split; [apply (VInv_same_timers _ _ Tp2 V2)|].
+  rewrite (Psi_same _ _ Tp2). split; [exact P2|].
+  (* a due minimum at programming time contradicts the fixpoint of that heap, unless a configuration was consumed *)
+  assert (Due : forall p j, 0 <= j < 3 -> GInv p -> s_timers p = s_timers s2 ->
+            min0 p j <> 0 /\ t_target (tm p (min0 p j)) <= nows j -> Psi s2 < Psi st).
+  { intros p j Hj Gp Tp [Nm L]. destruct (K j Hj) as [Fx|Lt]; [|exact Lt]. exfalso.
+    pose proof (Fix_same _ _ j Tp Fx (min0 p j) (min0_member N p j Gp Nm)). lia. }
+  intros Dy. destruct (C2 Dy) as [Dy1|X2]; [|apply (Due p1 2); auto; lia].
+  destruct (C1 Dy1) as [Dy0|X1]; [|apply (Due p0 1); auto; lia].
+  destruct (C0 Dy0) as [X|X0]; [discriminate|apply (Due d0 0); auto; lia].
+Qed.
+
+(* _dispatch_event_loop_drain_timers always leaves its loop: more passes than pending configurations are never needed *)
+Theorem drain_term : forall fuel st ev calls,
+  GInv st -> VInv st -> Psi st < Z.of_nat fuel ->
+  exists st' ev' calls', drain fuel st nows ev calls = (st', ev', calls', true) /\ VInv st'.
+Proof.
+  induction fuel as [|fuel IH]; intros st ev calls G V Hf.
+  - pose proof (Psi_range st). lia.
+  - cbn [drain]. destruct (drain_pass_term st G V) as (s1 & e1 & c1 & E & G1 & V1 & P1 & D1).
+    rewrite E. cbn [negb]. destruct (s_dirty s1) eqn:Dy; [|eauto].
+    apply IH; auto. specialize (D1 eq_refl). lia.
+Qed.
+End Term.
+
+(* ================================================================================================ *)
+(* the system without termination flags *)
+Definition guardV (st : state) (o : top) : Prop :=
+  match o with
+  | TAfter _ tg _ => 1 <= tg < T64
+  | TCfg _ _ tg _ itv => 1 <= tg < T64 /\ 1 <= itv < T64          (* C11_config_ranges / C11_interval_config_ranges *)
+  | TLatch _ now => 0 <= now < T63
+  | TRun _ now => 0 <= now < T63
+  | TDrain n0 n1 n2 => 0 <= n0 < T63 /\ 0 <= n1 < T63 /\ 0 <= n2 < T63
+  | _ => True
+  end.
+
+Lemma vok_fresh flags : vok (fresh_timer flags).
+Proof. unfold vok, fresh_timer, UINT64_MAX, T64. simpl. lia. Qed.
+
+Section SysV.
+Variable N : Z.
+Hypothesis HN : 0 <= N /\ 2 * N + 2 <= CAPMAX.
+
+Lemma VInv_unregister st t : VInv st -> VInv (unregister st t).
+Proof.
+  intros V. unfold unregister.
+  assert (V1 : VInv (if t_armed (tm st t) then disarm st t else st)) by (destruct (t_armed _); auto using VInv_disarm).
+  apply VInv_set; auto. specialize (V1 t). unfold vok in *. simpl. exact V1.
+Qed.
+
+Lemma VInv_latch st t now : VInv st -> 0 <= now < T63 -> VInv (fst (latch st t now)).
+Proof.
+  intros V Hn. unfold latch. destruct (V t) as (Vt & Vi & Vp & Vc).
+  assert (K : vok (with_pending (tm st t) 0)) by (apply (vok_pending N HN); [apply V|unfold T64; lia]).
+  destruct (nz _); [|cbn [fst]; apply VInv_set; auto].
+  cbn [t_target t_deadline t_interval with_pending].
+  destruct (Z.ltb_spec (t_target (tm st t)) INT64_MAX); cbn [andb]; [|cbn [fst]; apply VInv_set; auto].
+  destruct (Z.geb_spec now (t_target (tm st t))); [|cbn [fst]; apply VInv_set; auto].
+  assert (Hp : 0 <= Z.shiftr (t_pending (tm st t)) 1 < T63).
+  { rewrite shiftr1 by lia. unfold T63, T64 in *. split; [apply Z.div_pos; lia|apply Z.div_lt_upper_bound; lia]. }
+  pose proof (missed_latch_range (t_target (tm st t)) (t_deadline (tm st t)) (t_interval (tm st t)) now _
+                ltac:(lia) ltac:(lia) Vi Hp) as MR.
+  destruct (compute_missed _ _ _ _ _) as [[cnt tg] dl]. cbn [fst]. apply VInv_set; auto.
+  unfold vok in *. simpl. repeat split; try tauto; try lia; unfold T64; lia.
+Qed.
+
+Lemma VInv_program st i now : VInv st -> VInv (fst (program_if_needed st i now)).
+Proof.
+  intros V. unfold program_if_needed. destruct (h_np _); auto. unfold program.
+  destruct (get_delay st i now) as [d l]. destruct (d =? 0); destruct (_ || _); cbn [fst]; intros t; apply V.
+Qed.
+
+Theorem tstep_V n st o :
+  N <= n -> GInv N st -> VInv st -> guard N st o -> guardV st o -> VInv (fst (tstep n st o)).
+Proof.
+  intros Hnn G V Gd Gv. destruct o; cbn [tstep guard guardV fst] in *.
+  - apply VInv_set; [destruct (t_armed _); auto using VInv_unregister|apply vok_fresh].
+  - apply VInv_set; auto. destruct (V t) as (Vt & Vi & Vp & Vc). unfold vok. simpl. unfold UINT64_MAX, T64 in *. repeat split; auto; lia.
+  - unfold set_cfg. apply VInv_set; auto. destruct (V t) as (Vt & Vi & Vp & Vc). unfold vok. simpl. tauto.
+  - unfold register. destruct (t_cfg (tm st t)); auto. apply (VInv_configure N HN); auto.
+  - apply (VInv_configure N HN); auto.
+  - apply VInv_resume; auto.
+  - apply VInv_unregister; auto.
+  - apply VInv_set; auto. apply (V t).
+  - contradiction.
+  - pose proof (VInv_latch st t now V Gv) as X. destruct (latch st t now). exact X.
+  - destruct (timers_run_terminates N HN st tidx now G V Gv) as (st' & ev & E & V'). rewrite E. exact V'.
+  - pose proof (VInv_program st tidx now V) as X. destruct (program_if_needed st tidx now). exact X.
+  - set (nows := fun c : Z => if c =? 0 then n0 else if c =? 1 then n1 else n2).
+    assert (Hn : forall i, 0 <= i < 3 -> 0 <= nows i < T63).
+    { intros i Hi. unfold nows. destruct (i =? 0); [tauto|]. destruct (i =? 1); tauto. }
+    destruct (drain_term N HN nows Hn (Z.to_nat n + 1) st [] [] G V) as (st' & ev & calls & E & V').
+    { pose proof (Psi_range N HN st). rewrite Nat2Z.inj_add, Z2Nat.id by lia. simpl. lia. }
+    rewrite E. exact V'.
+  - auto.
+Qed.
+
+(* ---- the whole system, no termination hypothesis *)
+Definition SVInv (st : state) : Prop := SInv N st /\ VInv st.
+
+Definition sguard2 (n : Z) (st : state) (s : sop) : Prop :=
+  match s with
+  | SOp o => guard N st o /\ guardV st o /\ external o
+  | SDrain fuel nows => (forall i, 0 <= i < 3 -> 0 <= nows i < T63) /\ N < Z.of_nat fuel
+  | SExpire i => True
+  end.
+Fixpoint svalid2 (n : Z) (st : state) (l : list sop) : Prop :=
+  match l with [] => True | s :: r => sguard2 n st s /\ svalid2 n (sstep n st s) r end.
+
+(* the manager's pass, total: it returns, and then needs_program is clear, the kernel timer is at the minimum, nothing is due *)
+Theorem manager_pass_total fuel st nows :
+  (forall i, 0 <= i < 3 -> 0 <= nows i < T63) -> SVInv st -> N < Z.of_nat fuel ->
+  exists st' ev calls, drain fuel st nows [] [] = (st', ev, calls, true) /\
+    SVInv st' /\ s_dirty st' = false /\
+    forall i, 0 <= i < 3 ->
+      npb st' i = false /\ kernel_ok st' i /\ forall t, member st' i t -> nows i < t_target (tm st' t).
+Proof.
+  intros Hn [S V] Hf. destruct S as [G QD].
+  destruct (drain_term N HN nows Hn fuel st [] [] G V) as (st' & ev & calls & E & V').
+  { pose proof (Psi_range N HN st). lia. }
+  exists st', ev, calls. split; [exact E|].
+  destruct (drain_Sys N HN fuel st nows st' ev calls Hn (conj G QD) E) as (S' & Dy & Fn).
+  split; [split; auto|]. split; auto.
+Qed.
+
+Theorem SVInv_step n st s : N <= n -> SVInv st -> sguard2 n st s -> SVInv (sstep n st s).
+Proof.
+  intros Hnn [S V] Gd. destruct s as [o|fuel nows|i]; cbn [sstep sguard2] in *.
+  - destruct Gd as (G1 & G2 & G3). split; [apply tstep_S; auto|]. destruct S as [G _]. apply tstep_V; auto.
+  - destruct Gd as [Hn Hf]. destruct (manager_pass_total fuel st nows Hn (conj S V) Hf) as (st' & ev & calls & E & S' & _).
+    rewrite E. exact S'.
+  - split; [apply kernel_expired_S; auto|]. intros t. apply V.
+Qed.
+
+Theorem SVInv_reachable n : N <= n ->
+  forall l st, SVInv st -> svalid2 n st l -> SVInv (fold_left (sstep n) l st).
+Proof.
+  intros Hnn. induction l as [|s r IH]; intros st S Vl; cbn [fold_left svalid2] in *; auto.
+  destruct Vl as [Gd Vl]. apply IH; auto. apply SVInv_step; auto.
+Qed.
+
+Lemma SVInv_init : SVInv init_state.
+Proof. split; [apply SInv_init; auto|]. intros t. apply vok_fresh. Qed.
+
+Theorem always_fires_total n l t i :
+  N <= n -> svalid2 n init_state l -> 0 <= i < 3 ->
+  let st := fold_left (sstep n) l init_state in
+  member st i t ->
+  s_dirty st = true \/ (s_harmed st i = true /\ s_ktimer st i <= t_target (tm st t)).
+Proof.
+  intros Hnn Vl Hi st M. apply (always_fires N st i t); auto.
+  apply (SVInv_reachable n Hnn l init_state SVInv_init Vl).
+Qed.
+
+(* _dispatch_timers_run, total: it returns, and then no armed timer of that heap is due *)
+Theorem run_total st tidx now :
+  GInv N st -> VInv st -> 0 <= now < T63 ->
+  exists st' ev, timers_run st tidx now = (st', ev, true) /\
+    GInv N st' /\ VInv st' /\ forall t, member st' tidx t -> now < t_target (tm st' t).
+Proof.
+  intros G V Hn. destruct (timers_run_terminates N HN st tidx now G V Hn) as (st' & ev & E & V').
+  exists st', ev. split; [exact E|]. destruct (run_fixpoint_G N HN st tidx now st' ev G E) as [G' Fx]. auto.
+Qed.
+End SysV.
+
+(* ================================================================================================ *)
+(* the abstract kernel timer (s_harmed, s_ktimer) is refined by the timerfd / epoll state machine of event_epoll.c *)
+Lemma timeout_program_arm k target : 0 <= target < INT64_MAX ->
+  let '(k', c) := timeout_program k target in
+  k_registered k' = true /\ k_armed k' = true /\ k_value k' = target /\ In (KSettime target) c.
+Proof.
+  intros H. unfold timeout_program. destruct (Z.geb_spec target INT64_MAX); [lia|]. cbn [andb].
+  destruct (Z.ltb_spec target INT64_MAX); [|lia].
+  destruct (k_registered k) eqn:R; cbn [negb]; [destruct (k_armed k) eqn:A; cbn [negb]|]; cbn [k_registered k_armed k_value];
+    repeat split; auto; apply in_or_app; right; simpl; auto.
+Qed.
+
+Definition apply_kcalls (ks : Z -> ktimer) (calls : list kcall) : Z -> ktimer :=
+  fold_left (fun ks '(kind, i, tg, _) =>
+               updf ks i (fst (if kind =? 1 then timeout_program (ks i) tg else loop_timer_delete (ks i)))) calls ks.
+
+Definition Kref (st : state) (ks : Z -> ktimer) : Prop :=
+  forall i, s_harmed st i = true -> k_armed (ks i) = true /\ k_registered (ks i) = true /\ k_value (ks i) = s_ktimer st i.
+
+Theorem program_refines N st i now ks :
+  GInv N st -> Kref st ks -> 0 <= now < T63 ->
+  Kref (fst (program st i now)) (apply_kcalls ks (snd (program st i now))).
+Proof.
+  intros G K Hn. unfold program, get_delay, DTH_TARGET_ID, DTH_DEADLINE_ID. fold (min0 st i).
+  assert (Other : forall (st1 : state) (hm : Z -> bool) kt hs ks' ,
+            (forall j, j <> i -> hm j = s_harmed st j /\ kt j = s_ktimer st j /\ ks' j = ks j) ->
+            (hm i = true -> k_armed (ks' i) = true /\ k_registered (ks' i) = true /\ k_value (ks' i) = kt i) ->
+            Kref (mkS hs hm kt (s_dirty st1) (s_timers st1)) ks').
+  { intros st1 hm kt hs ks' Ho Hi j Hj. cbn [s_harmed s_ktimer] in *. destruct (Z.eq_dec j i) as [->|Nj]; auto.
+    destruct (Ho j Nj) as (E1 & E2 & E3). rewrite E1 in Hj. rewrite E2, E3. apply K; auto. }
+  assert (Del : forall (st1 : state) hs, s_harmed st1 = s_harmed st -> s_ktimer st1 = s_ktimer st ->
+            Kref (mkS hs (updf (s_harmed st1) i false)
+                      (if s_harmed st1 i then updf (s_ktimer st1) i (-1) else s_ktimer st1) (s_dirty st1) (s_timers st1))
+                 (apply_kcalls ks (if s_harmed st1 i then [(0, i, 0, 0)] else []))).
+  { intros st1 hs E1 E2. apply Other.
+    - intros j Nj. unfold updf. destruct (Z.eqb_spec j i); [contradiction|]. rewrite E1, E2.
+      split; auto. split; [destruct (s_harmed st i); unfold updf; destruct (Z.eqb_spec j i); try contradiction; auto|].
+      destruct (s_harmed st i); cbn [apply_kcalls fold_left]; unfold updf; destruct (Z.eqb_spec j i); try contradiction; auto.
+    - unfold updf. rewrite Z.eqb_refl. discriminate. }
+  destruct (Z.eqb_spec (min0 st i) 0) as [Z0|Nm].
+  - change ((INT64_MAX =? 0) || (INT64_MAX >=? INT64_MAX)) with true. cbv iota beta. cbn [fst snd]. apply (Del st); auto.
+  - destruct (Z.leb_spec (t_target (tm st (min0 st i))) now) as [L|L].
+    + cbn [Z.eqb orb fst snd]. apply (Del (set_dirty st true)); auto.
+    + destruct (min0_member N st i G Nm) as [_ [Am _]]. pose proof (gi_tgt _ _ G _ Am) as Tg.
+      unfold T63, INT64_MAX in *. rewrite (u64_id (t_target (tm st (min0 st i)) - now)) by lia.
+      rewrite Z.min_l by lia.
+      destruct (Z.eqb_spec (t_target (tm st (min0 st i)) - now) 0); [lia|].
+      destruct (Z.geb_spec (t_target (tm st (min0 st i)) - now) 9223372036854775807); [lia|].
+      cbn [orb fst snd]. replace (t_target (tm st (min0 st i)) - now + now) with (t_target (tm st (min0 st i))) by lia.
+      rewrite u64_id by lia.
+      apply Other.
+      * intros j Nj. unfold updf. destruct (Z.eqb_spec j i); [contradiction|]. repeat split; auto.
+        cbn [apply_kcalls fold_left]. unfold updf. destruct (Z.eqb_spec j i); [contradiction|]. reflexivity.
+      * intros _. cbn [apply_kcalls fold_left]. unfold updf. rewrite !Z.eqb_refl. cbn [Z.eqb Pos.eqb].
+        pose proof (timeout_program_arm (ks i) (t_target (tm st (min0 st i))) ltac:(unfold INT64_MAX; lia)) as TA.
+        destruct (timeout_program (ks i) (t_target (tm st (min0 st i)))) as [k' c]. cbn [fst]. tauto.
+Qed.
+
+(* the expiry: both sides drop the registration *)
+Lemma kernel_expired_refines st i ks : Kref st ks -> Kref (kernel_expired st i) (updf ks i (merge_timer_k (ks i))).
+Proof.
+  intros K j Hj. unfold kernel_expired in *. cbn [s_harmed s_ktimer] in *. unfold updf in *.
+  destruct (Z.eqb_spec j i); [discriminate|]. apply K; auto.
+Qed.
